@@ -1,5 +1,7 @@
 import TxV.Util.AuditCmd
 import TxV.Props.C08
 import TxV.Props.C08b
+import TxV.Props.SourceTie
 #txv_audit TxV.Props.C08
 #txv_audit TxV.Props.C08b
+#txv_audit TxV.Props.SourceTie
